@@ -48,14 +48,20 @@ static void run(const std::vector<std::string> & t)
     }
     if (!ok) {out += (out.empty() ? "" : " ; ") + std::string("undef"); break;}
     typename FindRigidTransformationByLeastSquares<P>::TransformationMatrixType H;
+    typename FindRigidTransformationByLeastSquares<P>::TransformationMatrixType H2;
     if (pre == "-") {
       H = mode == "a" ? est.find(src, tgt, nrm) : est.find(src, tgt, nrm, corr);
+      H2 = mode == "a" ? est.find(src, tgt, nrm) : est.find(src, tgt, nrm, corr);
     } else {
       S s = static_cast<S>(vh::rf(pre));
       PreconditionedPointSet<P> ps(src, s), pt(tgt, s);
       est.setPreconditioner(ps, pt);
       H = mode == "a" ? est.find(ps, pt, nrm) : est.find(ps, pt, nrm, corr);
+      H2 = mode == "a" ? est.find(ps, pt, nrm) : est.find(ps, pt, nrm, corr);
     }
+    // asking the same question twice must give the same answer (nothing a call leaves behind may change the next one);
+    // the SECOND answer is the one reported when they differ, so that the oracle judges it
+    if (!(H.array() == H2.array()).all() && !(H.array() != H.array()).any()) {H = H2;}
     std::string one;
     for (int i = 0; i <= D; ++i) {for (int j = 0; j <= D; ++j) {one += (one.empty() ? "" : " ") + vh::pf(H(i, j));}}
     out += (out.empty() ? "" : " ; ") + one;
